@@ -559,6 +559,32 @@ func c10CloseUnderLoad(c *kit.Ctx, idx int, mode string, closeAfter int) {
 			frames[i].data = fat
 		}
 	}
+	if closeAfter < 0 {
+		// aligned with a rollover: close when the muxer is about to take the (fat) key frame that ends the
+		// (-closeAfter)-th segment, i.e. the first key frame at least F seconds after the segment's start
+		want, segStart, found := -closeAfter, int64(-1), 0
+		for i := range frames {
+			if frames[i].Audio || !frames[i].Key {
+				continue
+			}
+			if segStart < 0 {
+				segStart = frames[i].PtsNs
+				continue
+			}
+			if frames[i].PtsNs-segStart >= int64(cs.F)*1_000_000_000 {
+				found++
+				segStart = frames[i].PtsNs
+				if found == want {
+					closeAfter = i + 1 // pops == i+1: the muxer is at the pop of frame i
+					break
+				}
+			}
+		}
+		if closeAfter < 0 {
+			closeAfter = len(frames) / 2
+		}
+		c.Count("close_under_load_aligned_with_rollover", 1)
+	}
 	before := c10Mux.known()
 	s := media.NewStream(fmt.Sprintf("/c10/cl%d", atomic.AddInt64(&c10PathSeq, 1)), kit.SDPH264AAC)
 	if s.Hlsable() == nil {
@@ -709,11 +735,110 @@ func c10Concurrent(c *kit.Ctx, l *c10Lister) {
 			continue
 		}
 		rng := c.SubRng("c10close", k)
-		c10CloseUnderLoad(c, i, []string{"disk", "memory"}[k%2], 20+rng.Intn(900))
+		ca := 20 + rng.Intn(900)
+		if k%4 >= 2 {
+			ca = -(1 + rng.Intn(6)) // aligned with the rollover that ends segment 1..6
+		}
+		c10CloseUnderLoad(c, i, []string{"disk", "memory"}[k%2], ca)
+	}
+	// S3b: forced "close while a rollover is in flight"
+	for k := 0; k < c.Pick(8, 48); k++ {
+		if i, ok := mine(); ok {
+			c10CloseDuringRollover(c, i, 1+k%5)
+		}
 	}
 	// S4
 	if i, ok := mine(); ok {
 		_ = i
 		c10NoHlsStreams(c)
+	}
+}
+
+// c10CloseDuringRollover forces the schedule "the stream is closed while a segment rollover is in flight" (disk
+// mode): the muxer goroutine is held at hls.segment.finished (the finished file is closed but not yet listed; the
+// generator lock is held), Stream.Close runs on another goroutine, and the muxer is released 50 ms after the closer
+// has flagged the muxer (or after 2 s at the latest, so nothing can hang). Whatever order the closer takes the
+// playlist and the generator in, afterwards no segment file of the stream may be left.
+func c10CloseDuringRollover(c *kit.Ctx, idx int, which int) {
+	c.Pre(fmt.Sprintf("C10 close-during-rollover idx=%d rollover=%d", idx, which))
+	c10InstallHooks()
+	dir, err := os.MkdirTemp("/var/tmp", "c10-hls-")
+	if err != nil {
+		c.Inconclusive("cannot create temp dir: " + err.Error())
+		return
+	}
+	defer os.RemoveAll(dir)
+	config.VerifSet(false, false, dir, 5)
+	cs := &c10Case{Index: idx, Family: "close-during-rollover", Path: "stream", Mode: "disk", F: 5, Gops: []int{12}, Audio: "cont", DurMs: 60_000}
+	frames := cs.build()
+	var seen int32
+	held, release, flagged := make(chan struct{}), make(chan struct{}), make(chan struct{})
+	var flagOnce sync.Once
+	rules := []*kit.Rule{
+		kit.H.On("hls.segment.finished", nil, func(string, []interface{}) {
+			if int(atomic.AddInt32(&seen, 1)) == which {
+				close(held)
+				select {
+				case <-release:
+				case <-time.After(2 * time.Second):
+				}
+			}
+		}),
+		kit.H.On("tsmuxer.close.flagged", nil, func(string, []interface{}) { flagOnce.Do(func() { close(flagged) }) }),
+	}
+	defer kit.RemoveAll(rules)
+	s := media.NewStream(fmt.Sprintf("/c10/cr%d", atomic.AddInt64(&c10PathSeq, 1)), kit.SDPH264AAC)
+	if s.Hlsable() == nil {
+		s.Close()
+		c.Inconclusive("media.Stream has no HLS capability")
+		return
+	}
+	var stop int32
+	var wg sync.WaitGroup
+	wg.Add(1)
+	go func() {
+		defer wg.Done()
+		for i := 0; i < len(frames) && atomic.LoadInt32(&stop) == 0; i++ {
+			s.WriteFrame(c10ToFrame(&frames[i]))
+			if i%64 == 63 {
+				time.Sleep(time.Millisecond)
+			}
+		}
+	}()
+	select {
+	case <-held:
+	case <-time.After(60 * time.Second):
+		atomic.StoreInt32(&stop, 1)
+		wg.Wait()
+		s.Close()
+		c.Inconclusive("close-during-rollover: the rollover was not reached")
+		return
+	}
+	closed := make(chan struct{})
+	go func() { s.Close(); close(closed) }()
+	select {
+	case <-flagged:
+		time.Sleep(50 * time.Millisecond)
+	case <-time.After(2 * time.Second):
+	}
+	close(release)
+	select {
+	case <-closed:
+	case <-time.After(kit.Patience):
+		c.Inconclusive("close-during-rollover: Stream.Close did not return")
+	}
+	atomic.StoreInt32(&stop, 1)
+	wg.Wait()
+	c.Eval(1)
+	c.Distinct(fmt.Sprintf("close-during-rollover|%d", which))
+	c.Count("close_during_rollover_forced", 1)
+	// the muxer goroutine may still be finishing the frame it held: wait for the directory to settle empty
+	if !kit.WaitUntil(func() bool { ents, _ := os.ReadDir(dir); return len(ents) == 0 }, 3*time.Second) {
+		ents, _ := os.ReadDir(dir)
+		var fs []string
+		for _, e := range ents {
+			fs = append(fs, e.Name())
+		}
+		c.Violation("C10:close-race:rollover-in-flight:files-left:disk", map[string]interface{}{"files": fs, "rollover": which, "case": cs})
 	}
 }
